@@ -38,6 +38,10 @@ CHECKS = {
          "1..8 regions per message with lengths dense around 0/1/word/page boundaries, from_bytes and from_byte, cloned 0..3 times, compared byte for byte in the creator, every clone, the receiver, and again after the sender's copies, the message and the channel are gone or the creator's sim-process crashed. Largely an input property; the simulator adds process boundaries, drop/crash ordering and isolation. Sampling, not proof.", "5/C05"),
  "C08": ("exploration", "deterministic simulation: seeded orders of server creation, client connect/send/exit (clean or crash) and accept on real threads and sim-processes; descriptor ledger + temp-dir inspection + exec-child inheritance fault",
          "1..200 one-shot servers, used (client thread or sim-process with 1..20 messages, exiting or crashing before or after accept) or dropped unused; oracle: accept returns the first message, the receiver yields the rest in order (recv / try_recv / try_recv_timeout), names distinct, socket path and temp dir gone, no descriptor left in the ledger, listener never inherited by an exec'd child. Sampling, not proof.", "5/C08"),
+ "C19": ("exploration", "deterministic simulation: seeded single-threaded programs generated online against an executable reference model (ideal unbounded FIFO channels with handles in transit, sets, one-shot servers); refinement check per operation on the OS, memfd and in-process builds; virtual clock; hang = divergence",
+         "Each build runs the same seeded programs of <=60 operations over <=6 channels and every result (value, order, empty, disconnected, send failure, select events, accept) is compared with the reference model, hence with the other builds; a call that blocks where the model returns is caught by quiescence detection. One thread only: the schedule dimension is degenerate, the simulator contributes the virtual clock, hang detection, isolation and replay. Sampling, not proof.", "5/C19"),
+ "C20": ("exploration", "deterministic simulation (async feature): seeded schedules of converting threads, senders, the routing thread and consumers (block_on and hand-rolled polling with a counting waker); EINTR/short batches; per-stream history oracle + lost-wake-up detection at quiescence",
+         "1..32 streams created from 1..8 threads with 0..50 messages queued before conversion, senders dropped or held, consumers on their own threads, some streams dropped early; oracle: each stream yields exactly its messages in order, ends only after real disconnection and after all messages, and no consumer stays parked while a message or the end is pending. Sampling, not proof.", "5/C20"),
 }
 PENDING = "check not built yet (work in progress in this session; will be claimed once its simulation scenario exists)"
 
